@@ -29,6 +29,11 @@ THEOREMS = [
     "MM.inv_newRunM",
     "MM.empty_insertion_is_no_move",
     "MM.pinned_empty_insertion_deletes_everything",
+    "MM.compExch_clears_preselections",
+    "MM.compExch_clears_members_only",
+    "MM.trial_compExch_clears_preselections",
+    "MM.trial_compExch_noPresel",
+    "MM.pinned_compExch_keeps_preselection",
     "MM.plain_two_deletions_not_restored",
     "MM.reinsert_delete",
     "MM.delete_after_insert",
